@@ -184,7 +184,7 @@ impl CommitProof {
                 self.root().into(),
                 &self.indices,
                 leaves_to_prove.as_slice(),
-                leaves.len(),
+                self.length,
             ),
             leaves_to_prove,
         )
